@@ -1,4 +1,4 @@
-CONSTANT LoopTargetsSupported = TRUE
+CONSTANTS LoopTargetsSupported = TRUE  WithRewritten = TRUE
 INIT InitX
 NEXT Next
 CONSTRAINT Collect
